@@ -10,7 +10,7 @@
     ([IdsOK], [OrdersOK]) — see the NOT PROVED notes at the end. *)
 From Coq Require Import String Ascii List Bool Arith ZArith.
 From LC Require Import MathDefs ValidDefs ValidSpec ValidLeaf ValidMathProofs ValidCompProofs ValidUnitsProofs ValidProofs
-  ValidCitedProofs ValidCited2Proofs ValidCycleProofs ValidWitness ValidXmlName.
+  ValidCitedProofs ValidCited2Proofs ValidCycleProofs ValidIdsProofs ValidWitness ValidXmlName.
 Import ListNotations.
 Local Open Scope string_scope.
 Local Open Scope list_scope.
@@ -40,7 +40,7 @@ Print Assumptions C04_validate_sound_partial.
 (** Non-vacuity: a model with units (prefix, reference to local units, an import), an encapsulation hierarchy, an
     imported component, a mapping with ids, initial values (real and variable reference), a reset and MathML with
     qualifiers is accepted, and therefore satisfies WF. *)
-Example C04_nonvacuous : validate all_fixed ueq_c08 false w_valid = [] /\ WF all_fixed ueq_c08 w_valid.
+Example C04_nonvacuous : validate current_fixes ueq_c08 false w_valid = [] /\ WF current_fixes ueq_c08 w_valid.
 Proof. exact (conj ValidWitness.w_valid_accepted ValidWitness.w_valid_wf). Qed.
 Print Assumptions C04_nonvacuous.
 
@@ -140,7 +140,7 @@ Print Assumptions C04_location_free_units.
     resolved component import is not looked at — the child's own validation raises VARIABLE_NAME_VALUE, the validator
     reports nothing. *)
 Theorem C04_location_free_imported_children_refuted :
-  validate all_fixed ueq_c08 false w_import_child = []
+  validate current_fixes ueq_c08 false w_import_child = []
   /\ validate_component true 2 w_import_child 1 [] (mkC 21 "child" "" "" None [mk_var 22 "1bad" "second" "" []] [] [])
      = [V_VARIABLE_NAME_VALUE].
 Proof. exact ValidWitness.w_import_child_facts. Qed.
@@ -230,10 +230,11 @@ Proof.
 Qed.
 Print Assumptions C04_math_any_depth.
 
-(** The MathML passes of this model with the qualifier switch off ARE C01's transcription of validateMath. *)
+(** The MathML passes of this model ARE C01's transcription of validateMath (MathDefs.val_math_env_gen2), with the
+    qualifier switch where MathDefs records it for the tree. *)
 Theorem C04_math_is_C01_transcription : forall vars units root,
-  val_math_env_q false vars units root = MathDefs.val_math_env vars units root.
-Proof. exact ValidMathProofs.val_math_env_q_false. Qed.
+  val_math_env_q qualifier_fix_committed vars units root = MathDefs.val_math_env vars units root.
+Proof. exact ValidMathProofs.val_math_env_q_c01. Qed.
 Print Assumptions C04_math_is_C01_transcription.
 
 (** The table of isNameStartChar / isNameChar on packed UTF-8 bytes is the NameStartChar / NameChar production of the
@@ -243,30 +244,49 @@ Theorem C04_xml_name_table_bmp : forall cp, (cp < 0x10000)%N ->
 Proof. exact ValidXmlName.xml_name_table_bmp. Qed.
 Print Assumptions C04_xml_name_table_bmp.
 
-(** REFUTED on the tree before fixes/C04-*.diff (the witnesses replayed on the real library are the findings):
-    soundness — accepted although a rule is broken: duplicate reset orders across an indirectly connected variable set;
-    an empty <ci> inside <bvar>; a map_variables id that is not an XML name on a pair with colliding name concatenations.
-    The repaired model cites the rule in each case. *)
+(** REFUTED on the tree before the repairs 5d61678 / a5130f0 / 1c340b4 (the witnesses replayed on the real library were
+    the findings): soundness — accepted although a rule is broken: duplicate reset orders across an indirectly connected
+    variable set; an empty <ci> inside <bvar>; a map_variables id that is not an XML name on a pair with colliding name
+    concatenations.  The model of the CURRENT tree cites the rule in each case. *)
 Theorem C04_validate_sound_unfixed_refuted :
   (validate unfixed ueq_c08 false w_reset_chain = []
-   /\ has_rule V_RESET_ORDER_UNIQUE (validate all_fixed ueq_c08 false w_reset_chain) = true)
+   /\ has_rule V_RESET_ORDER_UNIQUE (validate current_fixes ueq_c08 false w_reset_chain) = true)
   /\ (validate unfixed ueq_c08 false w_bvar_empty_ci = []
-      /\ has_rule V_MATH_CI_VARIABLE_REFERENCE (validate all_fixed ueq_c08 false w_bvar_empty_ci) = true)
+      /\ has_rule V_MATH_CI_VARIABLE_REFERENCE (validate current_fixes ueq_c08 false w_bvar_empty_ci) = true)
   /\ (validate unfixed ueq_c08 false w_concat = []
-      /\ has_rule V_XML_ID_ATTRIBUTE (validate all_fixed ueq_c08 false w_concat) = true).
+      /\ has_rule V_XML_ID_ATTRIBUTE (validate current_fixes ueq_c08 false w_concat) = true).
 Proof. exact (conj ValidWitness.w_reset_chain_facts (conj ValidWitness.w_bvar_empty_ci_facts ValidWitness.w_concat_facts)). Qed.
 Print Assumptions C04_validate_sound_unfixed_refuted.
 
-(** completeness — rejected although valid: one import element with an id and two children. *)
-Theorem C04_validate_complete_unfixed_refuted :
-  validate all_fixed ueq_c08 false w_shared_import = []
-  /\ has_rule V_XML_ID_ATTRIBUTE (validate unfixed ueq_c08 false w_shared_import) = true.
-Proof. exact ValidWitness.w_shared_import_facts. Qed.
-Print Assumptions C04_validate_complete_unfixed_refuted.
+(** REFUTED on the CURRENT tree (open finding C04-shared-import-source-id, pinned by the upstream test
+    ParserTransform.annotatedCellMl10Model): completeness — one import element with an id and two children satisfies every
+    clause of WF, has unique reset orders and pairwise distinct ids (ValidSpec.entity_ids counts an import element once),
+    and is rejected with XML_ID_ATTRIBUTE; the model with that repair accepts it. *)
+Theorem C04_validate_complete_current_refuted :
+  WF current_fixes ueq_c08 w_shared_import
+  /\ OrdersOK current_fixes w_shared_import
+  /\ NoDup (entity_ids (model_at w_shared_import 0))
+  /\ has_rule V_XML_ID_ATTRIBUTE (validate current_fixes ueq_c08 false w_shared_import) = true
+  /\ ~ no_shared_isrc_id (model_at w_shared_import 0).
+Proof. exact ValidWitness.w_shared_import_current. Qed.
+Print Assumptions C04_validate_complete_current_refuted.
+
+(** ... and exactly that shape is needed: when no import source that carries an id is shared by several imported entities,
+    the current validator IS the one with the repair, hence complete. *)
+Theorem C04_isrc_once_irrelevant_partial : forall a b d ueq early W, no_shared_isrc_id (model_at W 0) ->
+  validate (mkFx a b false d) ueq early W = validate (mkFx a b true d) ueq early W.
+Proof. exact ValidIdsProofs.validate_isrc_once_irrelevant. Qed.
+Print Assumptions C04_isrc_once_irrelevant_partial.
+
+Theorem C04_validate_complete_current_partial : forall ueq W, Repr (model_at W 0) -> unresolved_world W ->
+  no_shared_isrc_id (model_at W 0) ->
+  WF current_fixes ueq W -> IdsOK all_fixed W -> OrdersOK current_fixes W -> validate current_fixes ueq false W = [].
+Proof. exact ValidWitness.validate_complete_current. Qed.
+Print Assumptions C04_validate_complete_current_partial.
 
 (* NOT PROVED: the declarative counterparts of the two model-wide passes, i.e.
      IdsOK fx W  <->  every id of the document is an XML name /\ NoDup (ValidSpec.entity_ids + mapping / connection ids)
-     OrdersOK all_fixed W  <->  ValidSpec.ResetOrdersUnique (model_at W 0)      (and its refutation for [unfixed] beyond the witness above)
+     OrdersOK current_fixes W  <->  ValidSpec.ResetOrdersUnique (model_at W 0)  (and its refutation for [unfixed] beyond the witness above)
    Both passes are fold-with-accumulator transcriptions (buildModelIdMap, buildModelResetOrderMap); they are tied to the
    code by the correspondence run and enter C04_validate_iff_partial through their own verdict.
    NOT PROVED: the equivalence for worlds whose model 0 has RESOLVED imports (validateUnits / validateComponent then
